@@ -142,3 +142,11 @@ func VerifCachedRule(s State, id string) *Rule {
 	}
 	return nil
 }
+
+// VerifBreakerState exposes an OutboundBreaker's window for state hashing.
+func VerifBreakerState(b *OutboundBreaker) (counts []int64, updatedUnixNano int64, limit int64, interval int64) {
+	b.Lock()
+	defer b.Unlock()
+	counts = append([]int64(nil), b.counts...)
+	return counts, b.updated.UnixNano(), b.limit, int64(b.interval)
+}
